@@ -87,6 +87,31 @@ def expandRow (T : Tables) (fuel : Nat) (id : Nat) : Option (List Nat) :=
   | none => none
   | some row => expand T fuel row
 
+/-! ### count-free expansion
+
+The flat result does not depend on the replication counts at all: copy every id, replace a
+defined sequence id by the expansion of its row, and never expand the id that follows a delayed
+replication descriptor (its factor).  This is total on every list in which no delayed replication
+is the very last id, ill-counted ones included; it is what "a direct expansion of the table file"
+means for the few bundled rows whose replication count runs past the end of the row. -/
+
+def looseWith (sub : Nat → Option (List Nat)) : List Nat → Option (List Nat)
+  | [] => some []
+  | id :: rest =>
+    if 300000 ≤ id then
+      match sub id, looseWith sub rest with
+      | some o, some r => some (o ++ r)
+      | _, _ => none
+    else if 100000 ≤ id ∧ id < 200000 ∧ id % 1000 = 0 then
+      match rest with
+      | [] => none
+      | f :: rest' => (looseWith sub rest').map (fun r => id :: f :: r)
+    else (looseWith sub rest).map (id :: ·)
+
+def loose (T : Tables) : Nat → List Nat → Option (List Nat)
+  | 0, ids => looseWith (subOf T (fun _ => none)) ids
+  | fuel + 1, ids => looseWith (subOf T (loose T fuel)) ids
+
 /-- **Decidable well-formedness of the Table D entry `id`** for nesting depth `n`: the entry (if any)
     is well counted, and every sequence id in it is again well formed for depth `n - 1`; with
     `n = 0` the id must not be in Table D at all.  `rowOK n id` for some `n` rules out reference
